@@ -157,6 +157,19 @@ def make_input(rng: random.Random, n_refs: int = 2, n_qry: int = 8, ref_labels=(
             coords, truth = gen.cut_query(rng, xs, w0, w0 + w, sigma=rng.choice([0, 150]), offset=0)
             coords = gen.mirror_query(coords)
             mirrored = True
+        elif kind in ("splitindel", "splitindelrev"):      # ...rev: always given from the other end (reverse strand)
+            # two neighbouring windows of one reference with 40-90 kb of the reference missing between them, AND a small
+            # indel (2-5 kb, larger than maxPairDistance) inside the first window: one of the two alignments that get
+            # joined consists of two segments
+            w1 = max(12, w // 2)
+            g = rng.randint(4, 8)
+            if w0 + 2 * w1 + g + 4 >= n:
+                w0 = max(4, n - 2 * w1 - g - 5)
+            a, _ = gen.cut_query(rng, xs, w0, w0 + w1, sigma=60,
+                                 indel=(w0 + w1 // 2, rng.choice([-1, 1]) * rng.randint(2000, 5000)))
+            b, _ = gen.cut_query(rng, xs, w0 + w1 + g, w0 + 2 * w1 + g, sigma=60)
+            gap = rng.randint(3000, 9000)
+            coords = a + [a[-1] + gap + v for v in b]
         elif kind == "endstub":
             # only the last four labels of the molecule match the reference (a stub of 20-60 kb); the rest are a few
             # unrelated, widely spaced labels: the first-pass alignment sits at the very end of the molecule and the
@@ -180,7 +193,7 @@ def make_input(rng: random.Random, n_refs: int = 2, n_qry: int = 8, ref_labels=(
             coords = sorted(rng.sample(range(0, 30000), rng.choice([1, 2, 3, 4, 5])))   # seed peaks but no scored segment
         else:
             raise ValueError(kind)
-        if rng.random() < 0.35 and kind not in ("mirror", "tiny", "flankdup", "samestart"):
+        if (rng.random() < 0.35 or kind.endswith("rev")) and kind not in ("mirror", "tiny", "flankdup", "samestart"):
             coords = gen.mirror_query(coords, coords[-1] + coords[0])
             mirrored = True
         dx = deci(coords, rng if decimals else None)
